@@ -1,4 +1,5 @@
 mod c14;
+mod c17;
 mod common;
 mod guard;
 
@@ -14,6 +15,7 @@ fn main() {
     common::silence_panics();
     match argv[1].as_str() {
         "c14" => c14::gen(&args),
+        "c17" => c17::gen(&args),
         other => {
             eprintln!("unknown subcommand {other}");
             std::process::exit(2);
